@@ -65,8 +65,22 @@ class World:
         return {x.id for f in self.pkgs[d]["files"].values() for x in f["decls"]}
 
 
+PAREN_OK = ("ptralias-write", "ptralias-inc", "ptralias-method", "ptralias-closure", "ctor-new", "ctor-new-ptr", "ctor-var", "ctor-var-ptr", "ctor-var-blank", "ctor-var-two", "tonl-var", "tonl-var-ptr", "tonl-closure-param",
+            "tonl-local-struct", "pkgo-type-var", "pkgo-type-conv", "imm-nested-sel")
+
+
 def site_statements(sp):
     """(tag, line) ; variables in scope: t *T, tv T, u *U, h *H, s *Secret"""
+    if sp.get("mode") == "paren":
+        plain = dict(sp)
+        plain.update({"mode": "direct", "T": "d.T", "H": "d.H", "Secret": "d.Secret", "PT": "*d.T", "PH": "*d.H"})
+        a = site_statements(plain)
+        b = _site_statements(sp)
+        return [(tb, lb) if tb in PAREN_OK else (ta, la) for (ta, la), (tb, lb) in zip(a, b)]
+    return _site_statements(sp)
+
+
+def _site_statements(sp):
     T, U, H, S, q = sp["T"], sp["U"], sp["H"], sp["Secret"], sp["q"]
     return [
         ("imm-assign", "t.F = 1"), ("imm-assign-val", "tv.F = 2"), ("imm-compound", "t.F += 3"), ("imm-compound2", "tv.F *= 2"),
@@ -74,8 +88,8 @@ def site_statements(sp):
         ("imm-mutable", "t.Mut = 5"), ("imm-mutable-inc", "t.Mut++"), ("imm-mutable-index", "t.MutXs[0] = 1"),
         ("imm-read", "_ = t.F"), ("imm-other-type", "u.G = 6"), ("imm-other-inc", "u.G++"),
         ("imm-multi", "t.F, u.G = 7, 8"), ("imm-multi2", "u.G, t.F = 7, 8"),
-        ("imm-nested-sel", "w# := struct{ p *%s }{t}; w#.p.F = 9" % T),
-        ("imm-local-copy", "c# := *t; c#.F = 10; _ = c#"), ("imm-define", "f# := t.F; _ = f#"),
+        ("imm-nested-sel", "w# := struct{ p *%s }{t}; @@w#.p.F = 9" % T),
+        ("imm-local-copy", "c# := *t; @@c#.F = 10; _ = c#"), ("imm-define", "f# := t.F; _ = f#"),
         ("ctor-lit", "_ = %s{}" % T), ("ctor-lit-fields", "_ = %s{F: 1}" % T), ("ctor-addr", "_ = &%s{}" % T),
         ("ctor-elided", "_ = []%s{{}, {F: 2}}" % T), ("ctor-elided-ptr", "_ = []*%s{{}}" % T),
         ("ctor-map-elided", "_ = map[string]%s{\"a\": {}}" % T), ("ctor-new", "_ = new(%s)" % T), ("ctor-new-ptr", "_ = new(*%s)" % T),
@@ -96,6 +110,8 @@ def site_statements(sp):
         ("hidden-elided", "_ = %sHiddenList{{}, {V: 1}}" % q), ("hidden-elided-ptr", "_ = %sHiddenPtrs{{}}" % q),
         ("hidden-alias-lit", "_ = %sHiddenAlias{}" % q), ("hidden-alias-var", "var hz# %sHiddenAlias; _ = hz#" % q),
         ("hidden-alias-new", "_ = new(%sHiddenAlias)" % q), ("hidden-write", "%sGetHidden().V = 3" % q), ("hidden-inc", "%sGetHidden().V++" % q),
+        ("ptralias-write", "var pa# %s = t; @@pa#.F = 12" % sp["PT"]), ("ptralias-inc", "var pb# %s = t; @@pb#.F++" % sp["PT"]),
+        ("ptralias-method", "var ph# %s = h; @@ph#.Reset()" % sp["PH"]), ("ptralias-closure", "_ = func(x %s) { @@x.F = 13 }" % sp["PT"]),
         ("sibling-h-method", "getH().Reset()"), ("sibling-t-write", "getT().F = 11"), ("sibling-h-elided", "_ = hlist{{}, {N: 2}}"),
         ("sibling-s-method", "_ = getS().Open()"),
     ]
@@ -128,8 +144,8 @@ def gen_decl_package(W, rng, full=False):
     W.add("d", "types.go", Decl("H", ["type H struct{ N int }"], doc=pick([["// H helps tests.", "// @testonly"], ["// @testonly"], ["// H is ordinary now."]])))
     W.add("d", "types.go", Decl("Secret", ["type Secret struct{ V int }"],
                                 doc=pick([["// @packageonly " + allow_name], ["// @packageonly"], ["// @packageonly " + allow_name, "// @packageonly " + allow_path], ["// Secret is open."]])))
-    W.add("d", "funcs.go", Decl("NewT", ["func NewT() *T {", "\tt := &T{} /*@d-ctor-lit:exempt*/", "\tt.F = 1 /*@d-ctor-write:exempt*/", "\tt.Xs = nil", "\treturn t", "}"]))
-    W.add("d", "funcs.go", Decl("MakeT", ["func MakeT() T {", "\tvar t T /*@d-ctor-var:exempt*/", "\tt.F++ /*@d-ctor-inc:exempt*/", "\treturn t", "}"]))
+    W.add("d", "funcs.go", Decl("NewT", ["func NewT() *T {", "\t/*@" + W.wid + "d-ctor-lit:exempt*/ t := &T{}", "\t/*@" + W.wid + "d-ctor-write:exempt*/ t.F = 1", "\tt.Xs = nil", "\treturn t", "}"]))
+    W.add("d", "funcs.go", Decl("MakeT", ["func MakeT() T {", "\t/*@" + W.wid + "d-ctor-var:exempt*/ var t T", "\t/*@" + W.wid + "d-ctor-inc:exempt*/ t.F++", "\treturn t", "}"]))
     W.add("d", "funcs.go", Decl("Getters", ["func GetT() *T { return NewT() }", "func GetU() *U { return &U{} }", "func GetH() *H { return nil }", "func GetS() *Secret { return nil }"]))
     W.add("d", "funcs.go", Decl("Mock", ["func Mock() int { return 1 }"], doc=pick([["// Mock is for tests.", "// @testonly"], ["// @testonly extra words"], ["// Mock is ordinary."]])))
     W.add("d", "funcs.go", Decl("PlainFn", ["func PlainFn() int { return 2 }"]))
@@ -143,33 +159,33 @@ def gen_decl_package(W, rng, full=False):
     W.add("d", "funcs.go", Decl("Secret.Open", ["func (s *Secret) Open() int { return s.V }"],
                                 doc=pick([["// @packageonly " + allow_name], ["// @packageonly"], ["// Open is open."]])))
     W.add("d", "funcs.go", Decl("Secret.Peek", ["func (s *Secret) Peek() int { return s.V }"]))
-    W.add("d", "funcs.go", Decl("T.Set", ["func (r *T) Set(o *U) {", "\tr.F = 5 /*@d-method-write:imm-assign*/", "\t*r = T{} /*@d-recv-overwrite:recv*/",
-                                          "\t{", "\t\tr := o", "\t\t*r = U{} /*@d-shadow-overwrite:shadow*/", "\t}", "}"]))
-    W.add("d", "funcs.go", Decl("T.Val", ["func (r T) Val() int {", "\tr.F = 6 /*@d-valrecv-write:imm-assign*/", "\treturn r.F", "}"]))
-    W.add("d", "funcs.go", Decl("T.Inc", ["func (r *T) Inc() {", "\t*r = *r /*@d-recv-self:recv*/", "}"]))
+    W.add("d", "funcs.go", Decl("T.Set", ["func (r *T) Set(o *U) {", "\t/*@" + W.wid + "d-method-write:imm-assign*/ r.F = 5", "\t/*@" + W.wid + "d-recv-overwrite:recv*/ *r = T{}",
+                                          "\t{", "\t\tr := o", "\t\t/*@" + W.wid + "d-shadow-overwrite:shadow*/ *r = U{}", "\t}", "}"]))
+    W.add("d", "funcs.go", Decl("T.Val", ["func (r T) Val() int {", "\t/*@" + W.wid + "d-valrecv-write:imm-assign*/ r.F = 6", "\treturn r.F", "}"]))
+    W.add("d", "funcs.go", Decl("T.Inc", ["func (r *T) Inc() {", "\t/*@" + W.wid + "d-recv-self:recv*/ *r = *r", "}"]))
     # an unexported annotated type that importers can still instantiate and mutate without naming it
     W.add("d", "types.go", Decl("hidden", ["type hidden struct{ V int }"], doc=pick([["// @constructor newHidden", "// @immutable"], ["// @constructor newHidden"], ["// @immutable"], ["// hidden is plain."]])))
     W.add("d", "types.go", Decl("HiddenList", ["type HiddenList []hidden", "type HiddenPtrs []*hidden", "type HiddenAlias = hidden"]))
     W.add("d", "funcs.go", Decl("newHidden", ["func newHidden() *hidden { return &hidden{} }", "func GetHidden() *hidden { return newHidden() }"]))
     # an unannotated method that shares its name with a @testonly function of the package
-    W.add("d", "funcs.go", Decl("U.Mock", ["func (u *U) Mock() int {", "\treturn Mock() /*@d-method-named-like-testonly:tonl-func*/", "}"]))
+    W.add("d", "funcs.go", Decl("U.Mock", ["func (u *U) Mock() int {", "\t/*@" + W.wid + "d-method-named-like-testonly:tonl-func*/ return Mock()", "}"]))
 
 
 def spelling(W, mode):
     root = W.root
     d = {"mode": mode}
     if mode == "direct":
-        d.update({"q": "d.", "T": "d.T", "U": "d.U", "H": "d.H", "Secret": "d.Secret", "imports": ['"%s/d"' % root]})
+        d.update({"q": "d.", "T": "d.T", "U": "d.U", "H": "d.H", "Secret": "d.Secret", "PT": "*d.T", "PH": "*d.H", "imports": ['"%s/d"' % root]})
     elif mode == "import-alias":
-        d.update({"q": "dd.", "T": "dd.T", "U": "dd.U", "H": "dd.H", "Secret": "dd.Secret", "imports": ['dd "%s/d"' % root]})
+        d.update({"q": "dd.", "T": "dd.T", "U": "dd.U", "H": "dd.H", "Secret": "dd.Secret", "PT": "*dd.T", "PH": "*dd.H", "imports": ['dd "%s/d"' % root]})
     elif mode == "third-alias":
-        d.update({"q": "d.", "T": "m.AT", "U": "d.U", "H": "m.AH", "Secret": "m.ASecret", "imports": ['"%s/d"' % root, '"%s/m"' % root]})
+        d.update({"q": "d.", "T": "m.AT", "U": "d.U", "H": "m.AH", "Secret": "m.ASecret", "PT": "m.PT", "PH": "m.PH", "imports": ['"%s/d"' % root, '"%s/m"' % root]})
     elif mode == "local-alias":
-        d.update({"q": "d.", "T": "LT", "U": "d.U", "H": "LH", "Secret": "LSecret", "imports": ['"%s/d"' % root], "local_aliases": True})
+        d.update({"q": "d.", "T": "LT", "U": "d.U", "H": "LH", "Secret": "LSecret", "PT": "LPT", "PH": "LPH", "imports": ['"%s/d"' % root], "local_aliases": True})
     elif mode == "paren":
-        d.update({"q": "d.", "T": "(d.T)", "U": "d.U", "H": "(d.H)", "Secret": "(d.Secret)", "imports": ['"%s/d"' % root]})
+        d.update({"q": "d.", "T": "(d.T)", "U": "d.U", "H": "(d.H)", "Secret": "(d.Secret)", "PT": "(*d.T)", "PH": "(*(d.H))", "imports": ['"%s/d"' % root]})
     elif mode == "self":
-        d.update({"q": "", "T": "T", "U": "U", "H": "H", "Secret": "Secret", "imports": []})
+        d.update({"q": "", "T": "T", "U": "U", "H": "H", "Secret": "Secret", "PT": "*T", "PH": "*H", "imports": []})
     else:
         raise ValueError(mode)
     return d
@@ -197,7 +213,7 @@ def add_user_package(W, rng, dname, pkgname, sp, nfuncs, sid_prefix, test_file=F
     for tag, line in sib:
         if rng.random() < 0.7:
             sid = "%s%sn%d" % (W.wid, sid_prefix, len(nb))
-            nb.append(line + " /*@%s:%s*/" % (sid, tag))
+            nb.append("/*@%s:%s*/ " % (sid, tag) + line)
             if stats is not None:
                 stats["tags"][tag] = stats["tags"].get(tag, 0) + 1
     W.add(dname, noimp, Decl("%sNoImp" % dname.capitalize(), ["func %sNoImp() {" % dname.capitalize()] + ["\t" + l for l in nb] + ["}"]))
@@ -212,7 +228,9 @@ def add_user_package(W, rng, dname, pkgname, sp, nfuncs, sid_prefix, test_file=F
             tag, line = rng.choice(stmts)
             sid = "%s%s%d" % (W.wid, sid_prefix, k)
             k += 1
-            lines = [line.replace("#", str(k)) + " /*@%s:%s*/" % (sid, tag)]
+            mk = "/*@%s:%s*/ " % (sid, tag)
+            line = line.replace("#", str(k))
+            lines = [line.replace("@@", mk) if "@@" in line else mk + line]
             depth = rng.choice([0, 0, 1, 1, 2, 3])
             nests = []
             for _ in range(depth):
@@ -247,7 +265,10 @@ def add_user_package(W, rng, dname, pkgname, sp, nfuncs, sid_prefix, test_file=F
         if fk == "pkgvar":
             body = [l.replace("defer func() {", "func() {").replace("go func() {", "func() {") for l in body]
         W.add(dname, fn, Decl(name, [head] + ["\t" + l for l in body] + tail, doc=doc))
-    for tag, line in [("pkg-var-lit", "var %sG1 = %s{}" % (cap, sp["T"])), ("pkg-var-zero", "var %sG2 %s" % (cap, sp["T"])),
+    spl = dict(sp)
+    if sp.get("mode") == "paren":
+        spl.update({"T": "d.T"})
+    for tag, line in [("pkg-var-lit", "var %sG1 = %s{}" % (cap, spl["T"])), ("pkg-var-zero", "var %sG2 %s" % (cap, sp["T"])),
                       ("pkg-var-ptr", "var %sG3 *%s" % (cap, sp["T"])), ("pkg-var-h", "var %sG4 %s" % (cap, sp["H"])),
                       ("pkg-var-secret", "var %sG5 *%s" % (cap, sp["Secret"])),
                       ("pkg-field", "type %sBox struct{ f %s; g *%s }" % (cap, sp["H"], sp["Secret"])),
@@ -257,12 +278,12 @@ def add_user_package(W, rng, dname, pkgname, sp, nfuncs, sid_prefix, test_file=F
             k += 1
             if stats is not None:
                 stats["tags"][tag] = stats["tags"].get(tag, 0) + 1
-            W.add(dname, rng.choice(fnames), Decl("pkglvl-" + sid, [line + " /*@%s:%s*/" % (sid, tag)]))
+            W.add(dname, rng.choice(fnames), Decl("pkglvl-" + sid, ["/*@%s:%s*/ " % (sid, tag) + line]))
     if sp.get("local_aliases"):
         f0 = fnames[0]
-        for a, b in (("LT", "T"), ("LH", "H"), ("LSecret", "Secret")):
+        for a, b in (("LT", "d.T"), ("LH", "d.H"), ("LSecret", "d.Secret"), ("LPT", "*d.T"), ("LPH", "*d.H")):
             if a not in W.decl_ids(dname):
-                W.add(dname, f0, Decl(a, ["type %s = d.%s" % (a, b)]))
+                W.add(dname, f0, Decl(a, ["type %s = %s" % (a, b)]))
     return k
 
 
@@ -282,15 +303,34 @@ def add_impl_package(W):
                                   doc=["// @implements d.Shape"]))
 
 
+def add_impl_multifile(W):
+    """three files of one package bind the same import name differently (or not at all); each carries a package-qualified
+    @implements that must be resolved against ITS OWN file's imports"""
+    root = W.root
+    for pn, meth in (("p1", "One() int"), ("p2", "Two() string")):
+        W.add_pkg(pn)
+        W.add_file(pn, pn + ".go", [])
+        W.add(pn, pn + ".go", Decl("I", ["type I interface{ %s }" % meth, "const Anchor = 0"]))
+    W.add_pkg("mf")
+    W.add_file("mf", "a.go", ['dep "%s/p1"' % root])
+    W.add_file("mf", "b.go", ['dep "%s/p2"' % root])
+    W.add_file("mf", "c.go", [])
+    W.add("mf", "a.go", Decl("D1", ["type D1 struct{} /*@%smf1:impl-ok*/" % W.wid, "func (D1) One() int { return 1 }"], doc=["// @implements dep.I"]))
+    W.add("mf", "b.go", Decl("D2", ["type D2 struct{} /*@%smf2:impl-ok*/" % W.wid, "func (D2) Two() string { return \"\" }"], doc=["// @implements dep.I"]))
+    W.add("mf", "c.go", Decl("D3", ["type D3 struct{} /*@%smf3:impl01*/" % W.wid], doc=["// @implements dep.I"]))
+    W.pkgs["mf"]["no_move"] = True
+
+
 def full_world(rng, wid, modroot="w", stats=None, full_annotations=False, spelling_mode=None, with_impl=False):
     W = World(wid, "%s/%s" % (modroot, wid))
     gen_decl_package(W, rng, full=full_annotations)
     W.add_pkg("m")
     W.add_file("m", "m.go", ['"%s/d"' % W.root])
-    for a, b in (("AT", "T"), ("AH", "H"), ("ASecret", "Secret")):
-        W.add("m", "m.go", Decl(a, ["type %s = d.%s" % (a, b)]))
+    for a, b in (("AT", "d.T"), ("AH", "d.H"), ("ASecret", "d.Secret"), ("PT", "*d.T"), ("PH", "*d.H")):
+        W.add("m", "m.go", Decl(a, ["type %s = %s" % (a, b)]))
     W.add("m", "m.go", Decl("Anchor", ["const Anchor = 0"]))
-    mode = spelling_mode or rng.choice(["direct", "direct", "import-alias", "third-alias", "local-alias"])
+    drawn = rng.choice(["direct", "direct", "import-alias", "third-alias", "local-alias"])
+    mode = spelling_mode or drawn
     sp = spelling(W, mode)
     W.meta["spelling"] = mode
     if stats is not None:
@@ -303,6 +343,7 @@ def full_world(rng, wid, modroot="w", stats=None, full_annotations=False, spelli
     add_user_package(W, rng, "d", "d", spelling(W, "self"), 3, "s", test_file=rng.random() < 0.3, stats=stats)
     if with_impl:
         add_impl_package(W)
+        add_impl_multifile(W)
     return W
 
 
@@ -375,34 +416,34 @@ def c14_world(rng, wid, modroot="w", stats=None):
     W.add("d", "zz_generated.go", Decl("NewGenT", ["func NewGenT() *GenT { return &GenT{} }"]))
     W.add("d", "zz_generated.go", Decl("GenMock", ["func GenMock() int { return 1 }"], doc=["// @testonly"]))
     W.add("d", "zz_generated.go", Decl("GenInternal", ["func GenInternal() int { return 2 }"], doc=["// @packageonly nobody"]))
-    W.add("d", "zz_generated.go", Decl("GenWrites", ["func GenWrites(t *T) {", "\tt.F = 1 /*@%sg0:imm-assign*/" % wid, "\t_ = T{} /*@%sg1:ctor-lit*/" % wid, "}"]))
+    W.add("d", "zz_generated.go", Decl("GenWrites", ["func GenWrites(t *T) {", "/*@%sg0:imm-assign*/ \tt.F = 1" % wid, "/*@%sg1:ctor-lit*/ \t_ = T{}" % wid, "}"]))
     # a package in an excluded directory
     W.add_pkg("gen")
     W.add_file("gen", "g.go", ['"%s/d"' % root])
-    W.add("gen", "g.go", Decl("G", ["func G(t *d.T) {", "\tt.F = 9 /*@%sg2:imm-assign*/" % wid, "\t_ = d.T{} /*@%sg3:ctor-lit*/" % wid, "\t_ = d.Mock() /*@%sg4:tonl-func*/" % wid, "}"]))
+    W.add("gen", "g.go", Decl("G", ["func G(t *d.T) {", "/*@%sg2:imm-assign*/ \tt.F = 9" % wid, "/*@%sg3:ctor-lit*/ \t_ = d.T{}" % wid, "/*@%sg4:tonl-func*/ \t_ = d.Mock()" % wid, "}"]))
     W.add("gen", "g.go", Decl("GenLocal", ["type GenLocal struct{ V int }"], doc=["// @immutable"]))
     # users of the excluded file's items, in ordinary files
     W.add_file("u", "uses_gen.go", ['"%s/d"' % root])
-    W.add("u", "uses_gen.go", Decl("UsesGen", ["func UsesGen() {", "\tg := d.NewGenT()", "\tg.F = 3 /*@%sg5:imm-assign*/" % wid, "\t_ = d.GenT{} /*@%sg6:ctor-lit*/" % wid,
-                                               "\t_ = d.GenMock() /*@%sg7:tonl-func*/" % wid, "\t_ = d.GenInternal() /*@%sg8:pkgo-func*/" % wid, "}"]))
+    W.add("u", "uses_gen.go", Decl("UsesGen", ["func UsesGen() {", "\tg := d.NewGenT()", "/*@%sg5:imm-assign*/ \tg.F = 3" % wid, "/*@%sg6:ctor-lit*/ \t_ = d.GenT{}" % wid,
+                                               "/*@%sg7:tonl-func*/ \t_ = d.GenMock()" % wid, "/*@%sg8:pkgo-func*/ \t_ = d.GenInternal()" % wid, "}"]))
     # an @ignore in an excluded file must not leak; an annotated type declared in an in-package test file
     W.add_file("u", "u_extra_test.go", ['"%s/d"' % root])
     W.add("u", "u_extra_test.go", Decl("TT", ["type TT struct{ F int }"], doc=["// @immutable"]))
-    W.add("u", "u_extra_test.go", Decl("useTT", ["func useTT(tt *TT, t *d.T) {", "\ttt.F = 1 /*@%sg9:imm-assign*/" % wid, "\tt.F = 2 /*@%sg10:imm-assign*/" % wid,
-                                                 "\t_ = d.Mock() /*@%sg11:tonl-func*/" % wid, "}"]))
+    W.add("u", "u_extra_test.go", Decl("useTT", ["func useTT(tt *TT, t *d.T) {", "/*@%sg9:imm-assign*/ \ttt.F = 1" % wid, "/*@%sg10:imm-assign*/ \tt.F = 2" % wid,
+                                                 "/*@%sg11:tonl-func*/ \t_ = d.Mock()" % wid, "}"]))
     # an external test package
     W.add_pkg("uext", "u_test")
     W.pkgs["uext"]["dir"] = "u"
     W.add_file("uext", "u_ext_test.go", ['"%s/d"' % root])
-    W.add("uext", "u_ext_test.go", Decl("extUse", ["func extUse(t *d.T) {", "\tt.F = 4 /*@%sg12:imm-assign*/" % wid, "\t_ = d.T{} /*@%sg13:ctor-lit*/" % wid,
-                                                   "\t_ = d.Mock() /*@%sg14:tonl-func*/" % wid, "\t_ = d.Internal() /*@%sg15:pkgo-func*/" % wid, "}"]))
+    W.add("uext", "u_ext_test.go", Decl("extUse", ["func extUse(t *d.T) {", "/*@%sg12:imm-assign*/ \tt.F = 4" % wid, "/*@%sg13:ctor-lit*/ \t_ = d.T{}" % wid,
+                                                   "/*@%sg14:tonl-func*/ \t_ = d.Mock()" % wid, "/*@%sg15:pkgo-func*/ \t_ = d.Internal()" % wid, "}"]))
     return W
 
 
 # ------------------------------------------------------------------------------------------------
 # rendering
 
-ANCHORS = {"d": "Free", "m": "Anchor"}
+ANCHORS = {"d": "Free", "m": "Anchor", "p1": "Anchor", "p2": "Anchor"}
 
 
 def render(W, outdir, rng=None, layout=None, edit=None):
@@ -419,7 +460,13 @@ def render(W, outdir, rng=None, layout=None, edit=None):
         all_imps = set()
         for f in pk["files"].values():
             all_imps |= set(f["imports"])
-        if layout.get("move") and rng is not None and len(normal) >= 2:
+        if layout.get("swapfiles") and len(normal) >= 2:
+            # the files of the package exchange their whole contents (imports and declarations): file order changes
+            rev = dict(zip(normal, reversed(normal)))
+            pk = dict(pk)
+            pk["files"] = {rev.get(fn, fn): f for fn, f in pk["files"].items()}
+            fmap = {fn: list(f["decls"]) for fn, f in pk["files"].items()}
+        if layout.get("move") and rng is not None and len(normal) >= 2 and not pk.get("no_move"):
             for fn in normal:
                 for dec in list(fmap[fn]):
                     if rng.random() < 0.35:
@@ -431,7 +478,7 @@ def render(W, outdir, rng=None, layout=None, edit=None):
             if layout.get("permute") and rng is not None:
                 rng.shuffle(decls)
             lines = ["package %s" % pk["name"], ""]
-            imps = sorted(all_imps if layout.get("move") else set(f["imports"]))
+            imps = sorted(all_imps if (layout.get("move") and not pk.get("no_move")) else set(f["imports"]))
             if imps:
                 lines += ["import ("] + ["\t" + i for i in imps] + [")", ""]
                 for i in imps:
@@ -454,6 +501,17 @@ def render(W, outdir, rng=None, layout=None, edit=None):
                         lines.append("\t// interleaved ordinary comment")
                 lines.append("")
             rel = os.path.join(W.wid, d, fn)
+            if layout.get("rename"):
+                import re as _re
+                ren = {"t": "alpha9", "tv": "beta9", "u": "gamma9", "h": "delta9", "s": "eps9", "rc": "recv9", "r": "rho9", "o": "omi9", "x": "xi9", "i": "iota9"}
+                hdr = 0
+                for j, l in enumerate(lines):
+                    if l.startswith(("package ", "import ", "\t\"", ")", "var _ =")) or l.strip().startswith("//") or (l.strip().startswith('"') and l.strip().endswith('"')):
+                        continue
+                    parts = _re.split(r"(/\*@.*?\*/)", l)
+                    for pi in range(0, len(parts), 2):
+                        parts[pi] = _re.sub(r"(?<![\w.\"/])(" + "|".join(ren) + r")(?![\w\"/])", lambda m: ren[m.group(1)], parts[pi])
+                    lines[j] = "".join(parts)
             if edit is not None:
                 lines = edit(rel, lines)
             for i, l in enumerate(lines, 1):
